@@ -5,6 +5,7 @@
   OBLIGATIONS (checked by the harness: every name is a theorem of this file, axioms audited):
     strategies_order supports_probe_agrees union_is_first_nonNone single_eq_generic
     forest_positional_differs true_pred_irrelevant self_prefix_irrelevant_partial
+    simple_eq_generic_partial
 -/
 import Genshi.Model.Path
 import Genshi.Model.PathParse
@@ -12,6 +13,7 @@ import Genshi.Model.PathStrategy
 import Genshi.Gen.Path
 import Genshi.Lemmas.PathSingle
 import Genshi.Lemmas.PathSpelling
+import Genshi.Lemmas.PathSimple
 namespace Genshi.Props.C17
 open Genshi Genshi.Path
 
@@ -234,5 +236,63 @@ theorem self_prefix_irrelevant_partial (s0 : Step) (rest : LocPath) (ns : NsMap)
   obtain ⟨heq, _⟩ := hk.2
   rw [heq]
   simp [runOne, gStep_end]
+
+/-! ## SimplePathStrategy is an abstraction of GenericStrategy -/
+
+theorem runTest_simple (frags : Option (List Frag)) (ic : Bool) (ns : NsMap) (vs : Vars) (t : PState)
+    (es : List Event) :
+    runTest [.simple frags ic] ns vs [.p t] es = (runOne (pStep frags ic ns) t es).1 := by
+  induction es generalizing t with
+  | nil => rfl
+  | cons e es ih =>
+    simp only [runTest, multiStep, List.zip_cons_cons, List.zip_nil_right, List.map_cons, List.map_nil,
+      Matcher.step, List.foldl_cons, List.foldl_nil, Val.isNone, runOne]
+    rw [ih]
+    simp
+
+/-- **simple_eq_generic** (partial).
+    Full statement: for every location path SimplePathStrategy supports (name / text() /
+    comment() tests, no predicates, any mixture of child, descendant, descendant-or-self and
+    self steps, an optional final attribute step), both modes, both caller behaviours and every
+    element tree, SimplePathStrategy reports event by event what GenericStrategy reports.
+    Proved here: paths `t1/t2/…/tn` of child-axis steps (n ≥ 1, any node tests), relative mode,
+    both caller behaviours, every element tree — the fragment that is bound to the context
+    node, where Simple's pair (fragment, matched prefix length) is an abstraction of Generic's
+    single candidate position (`Lemmas/PathSimple.lean`: `sim_chain`).
+    Missing: fragments entered through `descendant::` / `descendant-or-self::` (the
+    Knuth-Morris-Pratt part: prefix table `calculate_pi` and the fall-back loop), the pattern
+    mode, `self::` steps and the final attribute step.  Those are covered by the per-event
+    correspondence with the real strategies and by the strategy-vs-strategy oracle. -/
+theorem simple_eq_generic_partial (tests : List NodeTest) (hne : tests ≠ []) (skip : Bool)
+    (ns : NsMap) (vs : Vars) (tag : QName) (attrs : AttrList) (kids : List Node) (hok : okList kids = true) :
+    traceCaller (pathTest [childChain tests] false (some .simple)).1 ns vs skip
+        (pathTest [childChain tests] false (some .simple)).2 (Node.elem tag attrs kids).flatten
+      = traceCaller (pathTest [childChain tests] false (some .generic)).1 ns vs skip
+        (pathTest [childChain tests] false (some .generic)).2 (Node.elem tag attrs kids).flatten := by
+  have hg : gSteps (childChain tests) false = dotSlash :: childChain tests := by
+    cases tests with
+    | nil => exact absurd rfl hne
+    | cons t ts => simp [childChain, gSteps]
+  simp only [traceCaller, pathTest, List.map_cons, List.map_nil, mkMatcher, hg, fragments_chain]
+  rw [runTest_generic, runTest_simple]
+  congr 1
+  simp only [Node.flatten, runOne_cons, runOne_append]
+  rw [gStep_root_chain ns vs tests hne gInit tag attrs [] rfl,
+      pStep_root ns tests hne _ (.start tag attrs) rfl rfl]
+  have hi : RChain tests.length 1 ⟨[⟨1, [gInit.store.length]⟩] :: gInit.stack, gInit.store ++ [[]]⟩
+      [⟨some (0, 0), false⟩] := by
+    refine StkRel.one (Or.inl ⟨_, rfl, rfl, Nat.le_refl _, ?_⟩)
+    cases tests with
+    | nil => exact absurd rfl hne
+    | cons _ _ => simp
+  have hk := (sim_chain ns vs tests hne (calculatePi tests)).flattenList kids hok 1 (Nat.le_refl _) _ _ hi
+  rw [hk.1]
+  simp [runOne, gStep_end, pStep, Event.isEnd]
+
+-- non-vacuity: `a/b` on <r><a><b/></a></r>
+example : runTest (pathTest [childChain [.localName false ['a'], .localName false ['b']]] false (some .simple)).1 [] []
+    (pathTest [childChain [.localName false ['a'], .localName false ['b']]] false (some .simple)).2
+    (Node.elem ⟨[], ['r']⟩ [] [Node.elem ⟨[], ['a']⟩ [] [Node.elem ⟨[], ['b']⟩ [] []]]).flatten
+    = [.none, .none, .bool true, .none, .none, .none] := by decide +kernel
 
 end Genshi.Props.C17
